@@ -42,8 +42,58 @@ func isBitCall(v ssa.Value) (*ssa.Call, bool) {
 // bitmapField names the struct field holding the bitmap a Bit() call tests.
 func bitmapField(c *ssa.Call) string { return bitmapFieldEnv(c, nil) }
 
+// pickByEnv: v is a phi whose alternatives are selected by a test of a boolean parameter that the call site binds to a
+// constant; returns the alternative that call site gets (v itself otherwise).
+func pickByEnv(v ssa.Value, env map[*ssa.Parameter]ssa.Value) ssa.Value {
+	phi, ok := v.(*ssa.Phi)
+	if !ok || env == nil {
+		return v
+	}
+	var pick ssa.Value
+	n := 0
+	for i, pred := range phi.Block().Preds {
+		conds := dominatingConds(pred)
+		if iff, isIf := lastInstr(pred).(*ssa.If); isIf && pred.Succs[0] != pred.Succs[1] {
+			c, val := iff.Cond, pred.Succs[0] == phi.Block()
+			for {
+				u, isNot := c.(*ssa.UnOp)
+				if !isNot || u.Op != token.NOT {
+					break
+				}
+				c, val = u.X, !val
+			}
+			conds = append(conds, condEdge{iff, c, val})
+		}
+		feasible := true
+		decided := false
+		for _, ce := range conds {
+			p, isP := ce.Cond.(*ssa.Parameter)
+			if !isP {
+				continue
+			}
+			if b, isC := constBool(env[p]); isC {
+				decided = true
+				if b != ce.Val {
+					feasible = false
+				}
+			}
+		}
+		if !decided {
+			return v
+		}
+		if feasible {
+			pick = phi.Edges[i]
+			n++
+		}
+	}
+	if n == 1 {
+		return pick
+	}
+	return v
+}
+
 func bitmapFieldEnv(c *ssa.Call, env map[*ssa.Parameter]ssa.Value) string {
-	recv := strip(c.Common().Args[0])
+	recv := strip(pickByEnv(strip(c.Common().Args[0]), env))
 	if p, ok := recv.(*ssa.Parameter); ok && env != nil {
 		if av, bound := env[p]; bound {
 			recv = strip(av)
@@ -378,4 +428,83 @@ func fieldPath(v ssa.Value) string {
 		}
 	}
 	return ""
+}
+
+
+// colObject is the ColumnData of one iteration of a streamer column loop: built by a constructor call or in place.
+type colObject struct {
+	Val                  ssa.Value // the *ColumnData
+	Name, Type, IsEmptyV ssa.Value // initial field values (IsEmptyV nil when left at its zero value)
+	Pos                  ssa.Instruction
+}
+
+// columnObject finds the per-iteration ColumnData of rl: a call inside the loop to an in-package function returning
+// *ColumnData whose result is a fresh allocation with fields taken from its parameters, or a heap allocation of ColumnData
+// inside the loop with its fields stored directly.
+func (rl *rowLoop) columnObject() *colObject {
+	var out *colObject
+	fromAlloc := func(al *ssa.Alloc, bind func(ssa.Value) ssa.Value) *colObject {
+		co := &colObject{}
+		for _, ref := range *al.Referrers() {
+			fa, ok := ref.(*ssa.FieldAddr)
+			if !ok {
+				continue
+			}
+			for _, rr := range *fa.Referrers() {
+				st, ok := rr.(*ssa.Store)
+				if !ok || st.Addr != ssa.Value(fa) || st.Block() != al.Block() {
+					continue // only the initialisation next to the allocation
+				}
+				v := bind(st.Val)
+				switch fieldName(fa) {
+				case "Filed":
+					co.Name = v
+				case "Type":
+					co.Type = v
+				case "IsEmpty":
+					co.IsEmptyV = v
+				}
+			}
+		}
+		return co
+	}
+	instrs(rl.Fn, func(in ssa.Instruction) {
+		if !rl.Header.Dominates(in.Block()) || in.Block() == rl.Header {
+			return
+		}
+		switch x := in.(type) {
+		case *ssa.Call:
+			cal := x.Common().StaticCallee()
+			if cal == nil || cal.Blocks == nil || x.Common().IsInvoke() || cal.Pkg != rl.Fn.Pkg || !typeIs(x.Type(), rootPath, "ColumnData") {
+				return
+			}
+			rets := returnsOf(cal)
+			if len(rets) != 1 {
+				return
+			}
+			al, ok := resolve(rets[0].Results[0]).(*ssa.Alloc)
+			if !ok {
+				return
+			}
+			co := fromAlloc(al, func(v ssa.Value) ssa.Value {
+				if p, isP := v.(*ssa.Parameter); isP {
+					for i, q := range cal.Params {
+						if q == p && i < len(x.Common().Args) {
+							return x.Common().Args[i]
+						}
+					}
+				}
+				return v
+			})
+			co.Val, co.Pos = x, x
+			out = co
+		case *ssa.Alloc:
+			if x.Heap && typeIs(x.Type(), rootPath, "ColumnData") {
+				co := fromAlloc(x, func(v ssa.Value) ssa.Value { return v })
+				co.Val, co.Pos = x, x
+				out = co
+			}
+		}
+	})
+	return out
 }
